@@ -10,12 +10,14 @@ search     : direct oracle — payloads wrapped by INDEPENDENT encoders (tools/c
              with the bare payload loaded from memory (module digest, PCM, md5 vs hashlib, test title/format)
 """
 import hashlib
+import lzma
 import os
 import re
 import shutil
 import struct
 import subprocess
 import sys
+import time
 import zipfile
 
 import warnings
@@ -83,7 +85,11 @@ MANIFEST = dict(
          "sample bytes, lengths 1..4; titles padded with blanks / NULs / letters and payloads that begin with long runs of them; one / two / all "
          "256 / all-but-one byte values; inputs cut around the code-width and table-full points of the ARC LZW methods) through every codec -- "
          "including own independent encoders for LHA -lh4-/-lh5-/-lh6-/-lh7- (LZ77 with matches into the blank dictionary before the file + static "
-         "Huffman blocks), ARC squeeze (Huffman node table over RLE90) and ARC crunch / squash / Spark compress (LZW 9..16 bit) in ARC, Spark and ArcFS, and excluded `*.ext` members inside sub-directories in front of a module "
+         "Huffman blocks), ARC squeeze (Huffman node table over RLE90), ARC crunch / squash / Spark compress (LZW 9..16 bit) in ARC, Spark and ArcFS, and "
+         "xz / LZMA2 with a chosen chunk layout (own .xz container + LZMA range encoder, refereed by liblzma: uncompressed and LZMA chunks mixed, small "
+         "dictionaries 4 KiB..64 KiB(..256 KiB) that wrap inside both kinds of chunk, matches at distances up to the full dictionary size right after a "
+         "wrap; signatures oracle:xz:* stay apart from the known finding xz:dict_size>XZ_MAX_DICT); degenerate members -- empty and one byte -- through "
+         "every container writer must come back exactly or be refused cleanly (oracle:<codec>:degenerate, harness-abort:dp:degenerate:*), and excluded `*.ext` members inside sub-directories in front of a module "
          "that sits in a sub-directory (zip, LZX, LHA, ARC, ArcFS)."
          " DEFLATE: XmpModel.Inflate mirrors libxmp_tinfl_decompress as libxmp calls it (stored / fixed / dynamic blocks, tinfl's "
          "table-acceptance rule incl. empty and one-symbol code sets, symbols 286/287 and 30/31, distance and end-of-input tests); "
@@ -236,6 +242,51 @@ def boundary_mod(rng, b, k, j, words=None):
         p[-j:] = bytes([b]) * j
         p[-j - 1] = other
     return bytes(p)
+
+
+XZ_LAYOUT = {}          # md5 of a generated payload -> (dictionary size, pieces for W.xz_own)
+
+
+def mod_with_body(rng, body):
+    """M.K. module whose sample data is exactly `body` (even length); returns (module, offset of the sample data)"""
+    assert len(body) % 2 == 0 and len(body) // 2 <= 31 * 0xffff
+    m = bytearray(gen_mod(rng, npat=1, total_words=1)[:-2])
+    words, i = len(body) // 2, 0
+    while words > 0:
+        w = min(words, 0xffff)
+        off = 20 + 30 * i
+        nm = ("part%d" % i).encode()
+        m[off:off + 30] = nm + b"\0" * (22 - len(nm)) + struct.pack(">HBBHH", w, 0, 64, 0, 1)
+        words -= w
+        i += 1
+    return bytes(m) + body, len(m)
+
+
+def xz_mixed_mods(rng, quick):
+    """modules for the own xz writer: sample data = incompressible stretches longer than a small LZMA2 dictionary and
+    repeats of earlier data at distances up to the dictionary size; the chunk layout (uncompressed / LZMA) is kept in
+    XZ_LAYOUT so that the dictionary wraps inside uncompressed chunks and the far matches follow in LZMA chunks"""
+    out = []
+    for D in ([4096, 8192, 65536] if quick else [4096, 6144, 8192, 16384, 32768, 65536, 1 << 18]):
+        for k in range(1 if quick else 3):
+            body, pieces = W.xz_mixed_payload(rng, D, rounds=2 if D > 16384 else 3)
+            if len(body) % 2:
+                body += bytes([rng.getrandbits(8)])
+                pieces = pieces[:-1] + [(pieces[-1][0] + 1, pieces[-1][1])]
+            mod, off = mod_with_body(rng, body)
+            XZ_LAYOUT[hashlib.md5(mod).hexdigest()] = (D, [(off, "lz")] + pieces)
+            out.append(("gen/xz-mixed-%d-%d" % (D, k), mod))
+    return out
+
+
+def auto_pieces(rng, p):
+    """chunk layout for any payload: random pieces, LZMA-coded when small enough for the python range coder"""
+    pieces, left = [], len(p)
+    while left:
+        k = min(left, rng.choice([1, 300, 3000, 9000, 70000]))
+        pieces.append((k, "lz" if k <= 9000 and rng.random() < 0.7 else "raw"))
+        left -= k
+    return pieces
 
 
 def boundary_mods(rng, quick):
@@ -397,6 +448,16 @@ def corr_boundary(ck, exe, workdir, quick):
             items.append((codec, st))
             meta.append((codec, name, p))
         ck.bump("lzw_boundary_streams", len(sts))
+    # xz / LZMA2 chunk layouts of the own writer (refereed by liblzma) on raw payloads, small dictionaries
+    for D in ([4096, 8192, 16384] if quick else [4096, 6144, 8192, 16384, 32768, 65536]):
+        for _ in range(2 if quick else 4):
+            p, pieces = W.xz_mixed_payload(rng, D, rounds=rng.choice([2, 3]))
+            st, kinds = W.xz_own(p, pieces, D, rng.choice(["none", "crc32", "crc64"]), rng=rng)
+            if lzma.decompress(st) != p:
+                raise vlib.InfraError("own xz writer: liblzma decodes something else (dict %d)" % D)
+            items.append(("xz", st))
+            meta.append(("xz", "mixed-chunks-dict%d-%s" % (D, "".join(k[0] for k in kinds)[:24]), p))
+            ck.bump("xz_mixed_chunk_streams")
     real = run_dp(ck, exe, workdir, "boundary", items)
     if real is None:
         return
@@ -409,6 +470,56 @@ def corr_boundary(ck, exe, workdir, quick):
                          "the %s depacker does not return the payload of class %s (%d bytes) written by an independent encoder: %s" % (
                              codec, name, len(p), r))
     ck.cov["traces_validated_against_impl"] += 0
+
+
+def corr_degenerate(ck, exe, workdir, minsize=22):
+    """degenerate members through every container writer: the EMPTY member (expected: clean refusal or an exact empty
+    result -- never an abort) and ONE-BYTE members (exact round trip or clean refusal)"""
+    rng = ck.rng
+    items, meta = [], []
+    for p in [b"", b"", bytes([0]), b" ", b"\x90", b"\xff", bytes([rng.getrandbits(8)])]:
+        writers = [
+            ("bzip2", lambda: W.bzip2(p, 9)), ("xz", lambda: W.xz(p, check=rng.choice(["crc32", "crc64", "none"]))),
+            ("xz", lambda: W.xz_own(p, [(len(p), rng.choice(["raw", "lz"]))] if p else [], 4096, rng=rng)[0]),
+            ("gzip", lambda: W.gzip_member(p, level=rng.choice([1, 9]))[0]),
+            ("compress", lambda: W.compress_lzw(p, rng.randint(10, 16), True, 0)),
+            ("zip", lambda: W.zip_archive([("a.mod", p, None)], method="stored")),
+            ("zip", lambda: W.zip_archive([("a.mod", p, None)], method="deflated")),
+            ("lha", lambda: W.lha_archive([("a.mod", p)], rng.choice([0, 1, 2]))),
+            ("lha", lambda: W.lha_archive([("a.mod", p, b"-lh5-", W.lh_new_encode(p, b"-lh5-", rng)[0])], rng.choice([0, 1, 2]))),
+            ("lha", lambda: W.lha_archive([("a.mod", p, b"-lh7-", W.lh_new_encode(p, b"-lh7-", rng)[0])], 1)),
+            ("lzx", lambda: W.lzx_archive([("a.mod", p)])),
+            ("pp", lambda: W.pp20(p, use_matches=True)),
+        ]
+        for m in (1, 2, 3, 4, 8, 9):
+            writers.append(("arc", lambda m=m: W.arc_archive([("A.MOD", p, m)], False)))
+        for m in (2, 3, 4, 8, 9, 0x7f):
+            writers.append(("arc", lambda m=m: W.arc_archive([("A.MOD", p, m)], True)))
+        for m in (0x82, 0x83, 0x84, 0x88, 0x89, 0xff):
+            writers.append(("arcfs", lambda m=m: W.arcfs_archive([("a/mod", p, m)])))
+        for codec, wf in writers:
+            try:
+                st = wf()
+            except (AssertionError, ValueError, IndexError, ZeroDivisionError, struct.error):
+                ck.bump("degenerate_members_no_encoding")      # the format (or this writer) has no encoding for it
+                continue
+            if len(st) < minsize:
+                # libxmp_decrunch never hands files below its minimum header size to a depacker (C08_not_packed)
+                ck.bump("degenerate_members_below_dispatch_size")
+                continue
+            items.append((codec, st))
+            meta.append((codec, p))
+    real = run_dp(ck, exe, workdir, "degenerate", items)
+    if real is None:
+        return
+    ck.bump("degenerate_member_streams", len(items))
+    for (codec, p), (_, st), r in zip(meta, items, real):
+        if r == "D fail" or r == "D ok %d %016x" % (len(p), fnv1a(p)):
+            ck.bump("degenerate_members_refused" if r == "D fail" else "degenerate_members_exact")
+            continue
+        ck.violation("oracle:%s:degenerate" % codec, {"how": "python3 tools/check.py C08 --replay <this file>", "dp": codec,
+                                                     "stream_hex": st.hex(), "payload_hex": p.hex()},
+                     "the %s depacker returns something else than the %d-byte member (neither exact nor a refusal): %s" % (codec, len(p), r))
 
 
 def generated_payloads(ck, n):
@@ -546,6 +657,24 @@ def make_archive(rng, fmt, p, xzmax, force=None):
         lv = rng.randint(1, 9)
         a = cli(["bzip2", "-%d" % lv, "-c"], p)
         r["level"] = lv
+    elif fmt == "xz" and force.get("own"):
+        lay = XZ_LAYOUT.get(hashlib.md5(p).hexdigest())
+        if lay:
+            ds, pieces = lay
+        else:
+            ds, pieces = rng.choice([4096, 6144, 8192, 16384, 65536]), auto_pieces(rng, p)
+        lc = rng.randint(0, 4)
+        lp = rng.randint(0, 4 - lc)
+        o = dict(check=rng.choice(["none", "crc32", "crc64"]), lc=lc, lp=lp, pb=rng.randint(0, 4))
+        a, kinds = W.xz_own(p, pieces, ds, rng=rng, **o)
+        try:
+            ref = lzma.decompress(a)
+        except lzma.LZMAError as e:
+            raise vlib.InfraError("own xz writer rejected by liblzma: %s (dict %d, %s)" % (e, ds, o))
+        if ref != p:
+            raise vlib.InfraError("own xz writer: liblzma decodes something else (dict %d, %s)" % (ds, o))
+        r.update(o)
+        r.update(dict(own=True, dict_size=ds, chunks="".join(k[0] for k in kinds)[:60], laid_out=bool(lay)))
     elif fmt == "xz":
         o = dict(check=rng.choice(["none", "crc32", "crc64", "sha256"]))
         if rng.random() < 0.3:
@@ -1754,6 +1883,12 @@ def corr_mmcmp(ck, exe, workdir, n):
             return
     if not ck.lean_ok:
         return
+    # a mutated header may announce an output of hundreds of MiB: the list-based model would need minutes for the zero
+    # fill alone; those cases stay in the real run above (no abort, no hang) and are left out of the model comparison
+    keep = [i for i, (a, exp, p, tag) in enumerate(cases) if exp is not None or len(a) < 18 or struct.unpack("<I", a[14:18])[0] <= (4 << 20)]
+    ck.bump("mmcmp_mutated_cases_with_huge_announced_size", len(cases) - len(keep))
+    cases = [cases[i] for i in keep]
+    real = [real[i] for i in keep]
     model = vlib.run_driver("drv_c08", "".join("mmcmp %s %s\n" % (a.hex(), p.hex() or "-") for a, _, p, _ in cases), timeout=3000)
     for (a, exp, p, tag), r, m in zip(cases, real, model):
         if r != m:
@@ -1907,6 +2042,9 @@ def corr_framing(ck, arch, results):
 
 
 # ---------------------------------------------------------------------------- main
+PHASES = {}
+
+
 def run(ck):
     quick = ck.tier == "quick"
     try:
@@ -1925,21 +2063,54 @@ def run(ck):
     os.makedirs(workdir)
 
     # -- correspondences on the small models
+    _t0 = time.time()
     corr_md5(ck, exe, workdir, 150 if quick else 3000)
+    PHASES['corr_md5'] = round(time.time() - _t0, 1)
+    _t0 = time.time()
     corr_magic(ck, exe, workdir, 400 if quick else 6000)
+    PHASES['corr_magic'] = round(time.time() - _t0, 1)
+    _t0 = time.time()
     corr_rle(ck, exe, workdir, 400 if quick else 8000)
+    PHASES['corr_rle'] = round(time.time() - _t0, 1)
+    _t0 = time.time()
     corr_lzw(ck, exe, workdir, 40 if quick else 500)
+    PHASES['corr_lzw'] = round(time.time() - _t0, 1)
+    _t0 = time.time()
     corr_arcenc(ck, exe, workdir, 40 if quick else 500)
+    PHASES['corr_arcenc'] = round(time.time() - _t0, 1)
+    _t0 = time.time()
     corr_pp(ck, exe, workdir, 40 if quick else 500)
+    PHASES['corr_pp'] = round(time.time() - _t0, 1)
+    _t0 = time.time()
     corr_zipenc(ck, exe, workdir, 40 if quick else 500)
+    PHASES['corr_zipenc'] = round(time.time() - _t0, 1)
+    _t0 = time.time()
     corr_lha(ck, exe, workdir, 40 if quick else 500)
+    PHASES['corr_lha'] = round(time.time() - _t0, 1)
+    _t0 = time.time()
     corr_arcfs(ck, exe, workdir, 40 if quick else 500)
+    PHASES['corr_arcfs'] = round(time.time() - _t0, 1)
+    _t0 = time.time()
     corr_lzx(ck, exe, workdir, 40 if quick else 500)
+    PHASES['corr_lzx'] = round(time.time() - _t0, 1)
+    _t0 = time.time()
     corr_mmcmp(ck, exe, workdir, 40 if quick else 500)
+    PHASES['corr_mmcmp'] = round(time.time() - _t0, 1)
+    _t0 = time.time()
     corr_squeeze(ck, exe, workdir, 40 if quick else 400)
+    PHASES['corr_squeeze'] = round(time.time() - _t0, 1)
+    _t0 = time.time()
     corr_lhnew(ck, exe, workdir, 40 if quick else 400)
+    PHASES['corr_lhnew'] = round(time.time() - _t0, 1)
+    _t0 = time.time()
     corr_gzip(ck, exe, workdir, 40 if quick else 400)
+    PHASES['corr_gzip'] = round(time.time() - _t0, 1)
+    _t0 = time.time()
     corr_boundary(ck, exe, workdir, quick)
+    PHASES['corr_boundary'] = round(time.time() - _t0, 1)
+    _t0 = time.time()
+    corr_degenerate(ck, exe, workdir, (facts or {}).get("minsize") or 22)
+    PHASES['corr_degenerate'] = round(time.time() - _t0, 1)
 
     # -- payload pool: corpus modules that load identically bare-by-path and from memory, plus generated ones
     maxsize = 150000 if quick else 600000
@@ -1951,6 +2122,8 @@ def run(ck):
     gens = generated_payloads(ck, 8 if quick else 30)
     first_boundary = len(gens)
     gens = gens + boundary_mods(ck.rng, quick)
+    first_xzmixed = len(gens)
+    gens = gens + xz_mixed_mods(ck.rng, quick)
     pool = []
     cases = []
     for i, f in enumerate(cand):
@@ -1959,7 +2132,9 @@ def run(ck):
         pp = os.path.join(workdir, "gen%d.mod" % i)
         open(pp, "wb").write(data)
         cases.append(dict(id="gbare%d" % i, apath=pp, ppath=pp, nframes=4))
+    _t0 = time.time()
     res, aborted = run_load(ck, exe, cases, workdir, "pool")
+    PHASES["pool_load"] = round(time.time() - _t0, 1)
     for lf, last, rc, err in aborted:
         # a sanitizer abort while loading a bare corpus file belongs to C01; skip the file here
         ck.bump("pool_aborts")
@@ -2010,7 +2185,7 @@ def run(ck):
         plan.append((tiny, "zip", {"comment_len": cl}))
         plan.append((ck.rng.choice(pool), "zip", {"comment_len": cl}))
     # payload boundary classes (equal-byte runs of length 1..6 at both ends, 0/2/4 sample bytes) through every codec
-    bnd = [p for p in pool if p["gen"] and int(re.search(r"gen(\d+)\.mod$", p["path"]).group(1)) >= first_boundary]
+    bnd = [p for p in pool if p["gen"] and first_boundary <= int(re.search(r"gen(\d+)\.mod$", p["path"]).group(1)) < first_xzmixed]
     BND_FORMATS = ["bzip2", "bzip2-cli", "gzip", "xz", "compress", "pp", "zip", "lha", "arc", "arcfs", "lzx", "mmcmp"]
     for p in bnd:
         for fmt in (["bzip2", "bzip2-cli"] + ck.rng.sample(BND_FORMATS[2:], 3) if quick else BND_FORMATS):
@@ -2024,6 +2199,16 @@ def run(ck):
     for placement in ("before", "inside", "after", "after-inner"):
         for depth in ((1, 2) if quick else (1, 2, 3, 3)):
             plan.append((tiny if ck.rng.random() < 0.5 else ck.rng.choice(pool), "arc", {"tree": placement, "depth": depth}))
+    # xz / LZMA2 with small dictionaries written by the own writer: uncompressed and LZMA chunks mixed, the dictionary
+    # wraps inside both kinds, matches at distances up to the dictionary size follow (layout from XZ_LAYOUT); the same
+    # writer with random layouts on ordinary modules
+    xzm = [p for p in pool if hashlib.md5(p["data"]).hexdigest() in XZ_LAYOUT]
+    for p in xzm:
+        plan.append((p, "xz", {"own": True}))
+    ck.note("xz_mixed_chunk_modules", len(xzm))
+    small = [p for p in pool if len(p["data"]) <= 60000] or [tiny]
+    for _ in range(3 if quick else 20):
+        plan.append((ck.rng.choice(small), "xz", {"own": True}))
     # static-Huffman LHA methods on the modules with padded titles (matches into the blank dictionary before the file)
     titled = [p for p in bnd if len(p["data"]) > 20 and (p["data"][19:20] in (b" ", b"\0", b"a"))]
     for p in titled:
@@ -2053,6 +2238,7 @@ def run(ck):
             p = ck.rng.choice(pool)
         plan.append((p, ck.rng.choice(FORMATS), None))
     fmt_count = {}
+    _t_arch = time.time()
     for i, (p, fmt, force) in enumerate(plan):
         made = make_archive(ck.rng, fmt, p["data"], xzmax, force)
         if made is None:
@@ -2076,7 +2262,10 @@ def run(ck):
                 raise vlib.InfraError("own compress(1) writer rejected by gzip -d: %s" % c["recipe"])
             ck.bump("lzw_writer_refereed_by_gzip")
 
+    PHASES["archives_made"] = round(time.time() - _t_arch, 1)
+    _t0 = time.time()
     results, aborted = run_load(ck, exe, list(arch.values()), workdir, "arch")
+    PHASES["archives_load"] = round(time.time() - _t0, 1)
     for lf, last, rc, err in aborted:
         sig = vlib.sanitizer_signature(err)
         c = arch.get(last)
@@ -2132,6 +2321,7 @@ def run(ck):
             else:
                 md5_chunk_ok += 1
     ck.note("oracle_failures", fails_by)
+    ck.note("phase_seconds", PHASES)
     ck.note("md5_read_loops_matched", md5_chunk_ok)
     ck.cov["traces_validated_against_impl"] += md5_chunk_ok
 
